@@ -423,6 +423,12 @@ PrefixKept ==
 DiskConsistent ==
   disk.kind = "valid" => \A s \in DOMAIN disk.data : Aligned(disk.data[s])
 
+\* "completes": a running process can always take a step of its own (it is
+\* never stuck waiting); with the loop counters strictly increasing, every
+\* run that is not stopped again therefore reaches pc = "idle" with
+\* outcome "done"
+NeverStuck == pc # "idle" => ENABLED Normal
+
 TypeOK ==
   /\ disk.kind \in {"absent", "empty", "torn", "valid"}
   /\ pc \in {"idle", "load", "min", "ee", "succ", "cs", "incr", "iterend", "advance",
